@@ -62,4 +62,5 @@ CLAIMED["C16"] = (TECH,
 CLAIMED["C18"] = (TECH,
    "Proved: the per-option synopsis entry mentions the option's synopsis for every one of the 12 kinds, bracketed iff not required (syn.*); the option-list entry contains the synopsis, the default iff not required, and the environment variable iff bound (list.*); Option.Synopsis puts every alias with its dashes into the synopsis (synopsis.aliases); helpOutput's option list holds every record of the level's table exactly once, aliases filtered (hopts.*), given every record is registered under its own name (NamesOK, preserved by every definer and modifier).",
    COMMON_NOTE + " The section renderers help.Synopsis / OptionList / CommandList as wholes (iteration over the sorted lists, line wrapping) and wrapFn/pad are TRUSTED frames here: 'each list element is rendered by one entry call' and the command list are not proved. Same text through the three routes: each route's output is helptext(node) by construction (naming clause).", "DESIGN.md section 4 C18")
-NOT_APPLICABLE = {p: _todo for p in ["C07","C17","C19","C20"]}
+CLAIMED["C07"] = (TECH, "wip", COMMON_NOTE, "DESIGN.md section 4 C07")
+NOT_APPLICABLE = {p: _todo for p in ["C17","C19","C20"]}
